@@ -289,17 +289,17 @@ Proof.
   destruct hb as [[hk ck]|].
   - destruct (heap_retain_ev m hk) as [m1 e2] eqn:Hh.
     destruct (retain_closure m1 ck) as [m2 e3] eqn:Hrc.
-    inversion H; subst; clear H.
+    pose proof (f_equal fst H) as Hm; pose proof (f_equal snd H) as He; cbn [fst snd] in Hm, He; subst m' evs; clear H.
     apply T_cons_passive; [exact I|]. eapply T_app; [apply T_passive; exact Hp1|].
     eapply T_app; [eapply T_heap_retain_ev; eauto|eapply T_retain_closure; eauto].
   - pose proof (probe_direct_passive m raw) as Hp2.
     destruct (try_get_direct_closure m raw) as [d e2]. cbn [snd] in Hp2.
     destruct d as [ck|].
     + destruct (retain_closure m ck) as [m2 e3] eqn:Hrc.
-      inversion H; subst; clear H.
+      pose proof (f_equal fst H) as Hm; pose proof (f_equal snd H) as He; cbn [fst snd] in Hm, He; subst m' evs; clear H.
       apply T_cons_passive; [exact I|]. eapply T_app; [apply T_passive; exact Hp1|].
       eapply T_app; [apply T_passive; exact Hp2|eapply T_retain_closure; eauto].
-    + inversion H; subst; clear H.
+    + pose proof (f_equal fst H) as Hm; pose proof (f_equal snd H) as He; cbn [fst snd] in Hm, He; subst m' evs; clear H.
       apply T_cons_passive; [exact I|]. apply T_passive. apply Forall_app_intro; assumption.
 Qed.
 
